@@ -48,6 +48,7 @@ struct rtm_cam_cfg {
     int set_fails, start_fails;
     int keep_pixels;
     int stop_us;                  // latency of stop()
+    int trigger_us;               // execute_trigger returns this long after it has delivered the trigger
 };
 struct rtm_sto_cfg {
     int append_min_us, append_max_us; // latency of one append
